@@ -80,3 +80,9 @@ Theorem c18_iterator_closed_guards_is_source :
   end.
 Proof. exact DecIter.iterator_closed_guards. Qed.
 Print Assumptions c18_iterator_closed_guards_is_source.
+
+From GK Require Import DecLocks.
+(* nothing deadlocks: only the release of a version's last reference runs hooks under a lock *)
+Theorem c18_hooks_under_locks_are_source : hook_under_lock = ["Collection.rootDecRef"; "withAllocLocks"].
+Proof. exact DecLocks.hooks_under_locks. Qed.
+Print Assumptions c18_hooks_under_locks_are_source.
